@@ -113,6 +113,11 @@ CHECKS = {
             "bytes and mtime.",
             "Faults are injected at the libc boundary of the plain build; ftruncate failures and zero-length writes are outside the "
             "statement; single faults are exhaustive for the listed shapes, longer plans sampled.", "3/C03"),
+    "C09": ("exploration", "metamorphic property-based testing: repeat/macro run against the retyped run (two executions of the real binary)",
+            "Generated (prefix, change command with count/register prefix incl. multi-byte inserts and prompting filters, motion, repeat count, "
+            "suffix): P c M N. S must equal P c M c^N S, N@r (and @@) must equal the register body typed N times; compared on the written file, "
+            "the cursor marker and a dump of registers a b r \" 1 2.",
+            "No model: both sides are the real editor; F12 (a . or @ inside a macro followed by more keys) is documented and not generated.", "3/C09"),
 }
 
 ALL = ["C%02d" % i for i in range(1, 21)]
